@@ -1,3 +1,6 @@
 #!/bin/sh
+# setup_cmd: offline build of the fact extractor, the correspondence harness (plain and -race),
+# the regenerated Lean tables, every Lean module (all theorems) and the driver executable.
 set -e
-cd /verif/lean && lake build
+cd /verif
+exec ./check --setup
